@@ -191,8 +191,13 @@ func HostileRequest(t *rapid.T, pool []string, sessions []int64, newTag func() s
 			b = ""
 			unusual = true
 		}
-		a = strings.ReplaceAll(a, "/", ".")
-		b = strings.ReplaceAll(b, "/", ".")
+		// a range may well span the reserved records ("delete everything between A/ and z/"): the reserved prefix
+		// sorts in the middle of the user key space, at every depth of the hierarchical order
+		if rapid.IntRange(0, 3).Draw(t, "wideRange") == 0 {
+			a = rapid.SampledFrom([]string{"", "-", "A/", "A/A/", "0/0/0/0"}).Draw(t, "wideLo")
+			b = rapid.SampledFrom([]string{"~", "z/", "z/z/z", "~/~/~/~/~", "a/"}).Draw(t, "wideHi")
+			unusual = true
+		}
 		req.DeleteRanges = append(req.DeleteRanges, &proto.DeleteRangeRequest{StartInclusive: a, EndExclusive: b})
 	}
 	return req, unusual
